@@ -413,12 +413,46 @@ class RGen:
             self.fn_sigs["f5"] = (1, [("axis", "i", True)])
             self.features.add("nested_function")
 
+    def make_functions_v4(self):
+        t = self.t
+        if "f0" in self.functions and t.pick(3) == 0:
+            # f6(x, b) = If(b) { f0(x) } else { Neg(x) }: the only call of f0 may sit inside a control-flow body of a function
+            then_g = oh.make_graph([oh.make_node("f0", ["x"], ["t6"], domain="local", name="c6")], "f6_then", [], [vinfo("t6", "F23")])
+            else_g = oh.make_graph([oh.make_node("Neg", ["x"], ["e6"], name="n6")], "f6_else", [], [vinfo("e6", "F23")])
+            f6 = oh.make_function("local", "f6", ["x", "b"], ["y"], [oh.make_node("If", ["b"], ["y"], then_branch=then_g, else_branch=else_g, name="if6")],
+                                  [oh.make_opsetid("", self.opset), oh.make_opsetid("local", 1)])
+            self.functions["f6"] = f6
+            self.fn_sigs["f6"] = (2, [], ["F23", "B"])
+            self.features.add("function_body_with_control_flow_call")
+            self.features.add("nested_function")
+
+        # f7(x): one name, several bodies - which other function it calls differs from model to model
+        cands = [c for c in ("f0", "f1", "f3", "f4") if c in self.functions]
+        if cands and t.pick(2) == 0:
+            callee = cands[t.pick(len(cands))]
+            if callee == "f0":
+                body = [oh.make_node("f0", ["x"], ["y"], domain="local", alpha=2.0, name="c7")]
+            elif callee == "f1":
+                body = [oh.make_node("f1", ["x", "x"], ["y"], domain="local", axis=0, name="c7")]
+            elif callee == "f3":
+                body = [oh.make_node("f3", ["x"], ["y"], domain="local", name="c7")]
+            else:
+                body = [oh.make_node("f4", ["x"], ["y"], domain="local", scale=0.5, name="c7")]
+            opsets = [oh.make_opsetid("", self.opset), oh.make_opsetid("local", 1)]
+            self.functions["f7"] = oh.make_function("local", "f7", ["x"], ["y"], body, opsets)
+            self.fn_sigs["f7"] = (1, [])
+            self.features.add("function_body_varies_between_models")
+            self.features.add("nested_function")
+
     def call(self, nodes, pool):
         t = self.t
         names = sorted(self.fn_sigs)
         fn = names[t.pick(len(names))]
-        nin, attrs = self.fn_sigs[fn]
-        ins = [self.pick_kind(pool, "F23") for _ in range(nin)]
+        nin, attrs = self.fn_sigs[fn][:2]
+        kinds = self.fn_sigs[fn][2] if len(self.fn_sigs[fn]) > 2 else ["F23"] * nin
+        ins = [self.pick_kind(pool, k_) for k_ in kinds]
+        if any(i is None for i in ins):
+            return []
         kw = {}
         for an, ty, has_default in attrs:
             if not has_default or t.pick(2):
@@ -435,6 +469,8 @@ class RGen:
             self.make_functions_v2()
         if self.gen >= 3:
             self.make_functions_v3()
+        if self.gen >= 4:
+            self.make_functions_v4()
         inputs = [vinfo("x0", "F23"), vinfo("x1", "F23"), vinfo("cnd", "B")]
         pool = [("x0", "F23"), ("x1", "F23"), ("cnd", "B")]
         inits = []
